@@ -142,6 +142,8 @@ class Interp:
             base = self.ev(e.value, env)
             if isinstance(base, Obj):
                 return base.get(e.attr)
+            if type(base).__name__ == "Struct" and type(base).__module__ in ("_struct", "struct") and e.attr in ("size", "format", "unpack", "unpack_from", "pack"):
+                return getattr(base, e.attr)
             extra = getattr(base, "_minipy_attrs", None)
             if isinstance(extra, dict) and e.attr in extra:
                 return extra[e.attr]
